@@ -54,5 +54,6 @@ def nontrivial(c):
 TECHNIQUE = ('Coq model of the run in which every exception is an explicit outcome (Run.v) with "nothing escapes, the others still run, '
              'leftovers torn down, summary produced" as a boolean predicate (Obs.c04_ok); theorems in P_C04.v; correspondence check')
 LEVEL_TEXT = ('Whether anything escapes Runner.run(), which other tests still start, the final tear-down and the summaries are compared with '
-              'the model and evaluated in Coq on the real observation, with --buffer on and off, all verbosities, in-process and in children.')
+              'the model and evaluated in Coq on the real observation, with --buffer on and off, all verbosities, in-process and in children.'
+              ' Whole-run theorems (RunOnce.v, RunLedger.v, RunInv.v): other tests still run, everything recorded, everything torn down, for every world.')
 LEVEL_NOTE = 'The formatter (text layout of failure reports) is not modelled beyond the summary lines.'
